@@ -224,10 +224,27 @@ class Violation:
 
 
 def load_findings():
+    res = []
     p = os.path.join(VERIF, "known_findings.json")
-    if not os.path.exists(p):
-        return []
-    return json.load(open(p))
+    if os.path.exists(p):
+        res += json.load(open(p))
+    d = os.path.join(VERIF, "known_findings.d")
+    if os.path.isdir(d):
+        for n in sorted(os.listdir(d)):
+            if n.endswith(".json"):
+                res += json.load(open(os.path.join(d, n)))
+    return res
+
+
+def out_dir(kind):
+    """evidence/ and replays/ belong to runs against /repo; runs against a scratch tree
+    ($VERIF_REPO, used for mutant testing) write under work/ so they never masquerade as evidence."""
+    if REPO == "/repo":
+        d = os.path.join(VERIF, kind)
+    else:
+        d = os.path.join(WORK, "%s-%s" % (kind, repo_tag()))
+    os.makedirs(d, exist_ok=True)
+    return d
 
 
 def match_finding(findings, pid, sig):
@@ -260,7 +277,7 @@ class Check:
         self.extra = {}
         self.exhaustive = None
         self.violations = []
-        self.work = os.path.join(WORK, pid)
+        self.work = os.path.join(WORK, pid if REPO == "/repo" else "%s-%s" % (pid, repo_tag()))
         os.makedirs(self.work, exist_ok=True)
 
     # -- accounting
@@ -288,8 +305,7 @@ class Check:
                 known_hit.setdefault(key, (f, []))[1].append(v)
             else:
                 new.append(v)
-        rdir = os.path.join(VERIF, "replays")
-        os.makedirs(rdir, exist_ok=True)
+        rdir = out_dir("replays")
         lines = []
         for key, (f, vs) in known_hit.items():
             lines.append("KNOWN-FINDING: property=%s %s (%d occurrence(s) this run, e.g. %s)" % (
@@ -335,8 +351,7 @@ class Check:
         ev = {"property_id": self.pid, "tier": self.tier, "seed": self.seed, "level": self.level,
               "coverage": cov, "assumptions": self.assumptions,
               "wall_s": round(time.time() - self.t0, 2), "violations": nviol}
-        os.makedirs(os.path.join(VERIF, "evidence"), exist_ok=True)
-        with open(os.path.join(VERIF, "evidence", self.pid + ".json"), "w") as fh:
+        with open(os.path.join(out_dir("evidence"), self.pid + ".json"), "w") as fh:
             json.dump(ev, fh, indent=1, default=str)
 
 
